@@ -98,26 +98,19 @@ func (e *Env) RParseGuard() {
 		e.Run.Violation("R-NOPANIC", "ParseFile exists", "", "missing")
 		return
 	}
-	var norm []string
-	for _, st := range fd.Body.List {
-		norm = append(norm, stmtNorm(c, st))
-	}
-	iParse, iGuard, iDec := -1, -1, -1
-	for i, s := range norm {
-		if strings.HasPrefix(s, "f,perr := parser.ParseFile(") {
-			iParse = i
-		}
-		if s == "if perr != nil && f == nil { return nil,perr; }" || s == "if f == nil { return nil,perr; }" || s == "if f == nil && perr != nil { return nil,perr; }" {
-			iGuard = i
-		}
-		if strings.Contains(s, "d.DecorateFile(f)") {
-			iDec = i
-		}
-	}
-	e.Run.Check("R-NOPANIC", "ParseFile: a nil file from the parser is returned as an error before decoration", e.Prog.Pos(fd.Pos()), iParse >= 0 && iGuard > iParse && iDec > iGuard,
-		"expected parse; `if perr != nil && f == nil { return nil, perr }`; then DecorateFile(f) — decorating a nil *ast.File dereferences it; statements: "+strings.Join(norm, " ;; "))
-	last := norm[len(norm)-1]
-	e.Run.Check("R-NOPANIC", "ParseFile: the parse error is returned alongside the decorated partial file", e.Prog.Pos(fd.Pos()), last == "return file,perr", "last statement: "+last)
+	// ParseFile as a function of its inputs: the decorated file (with the parse error alongside)
+	// exactly when the parser gave a file or no error and decoration succeeded; the parse error
+	// alone exactly when there is an error and no file (DecorateFile is never reached with a nil
+	// file: its result appears only in returns under the first condition); the decoration error
+	// otherwise. The parse always asks for comments.
+	const pf = `parser.ParseFile(d.Fset, filename, src, mode|parser.ParseComments)`
+	const df = `d.DecorateFile(` + pf + `)`
+	const usable = `(res1(` + pf + `) == nil || ` + pf + ` != nil)`
+	e.checkReturnsZ("R-NOPANIC", c, fd, "ParseFile", "nil", []wantReturn{
+		{what: "the parse error is returned alongside the decorated (possibly partial) file", result: df, err: `res1(` + pf + `)`, cond: usable + ` && res1(` + df + `) == nil`},
+		{what: "a nil file from the parser is returned as its error, before decoration", result: "nil", err: `res1(` + pf + `)`, cond: `!` + usable},
+		{what: "a decoration error is returned", result: "nil", err: `res1(` + df + `)`, cond: usable + ` && res1(` + df + `) != nil`},
+	}, "")
 }
 
 // RMapsAllocated: maps of the per-file decorator/restorer state are allocated before use.
